@@ -62,8 +62,10 @@ var (
 )
 
 type PipelineHandler struct {
-	pipeline       ledger.Pipeline
-	stopChannel    chan chan error
+	pipeline    ledger.Pipeline
+	stopChannel chan chan error
+	// terminated is closed by the manager once Run has returned and the last state write has landed
+	terminated     chan struct{}
 	store          LogFetcher
 	exporter       drivers.Driver
 	pipelineConfig PipelineHandlerConfig
@@ -202,6 +204,7 @@ func NewPipelineHandler(
 	return &PipelineHandler{
 		pipeline:       pipeline,
 		stopChannel:    make(chan chan error, 1),
+		terminated:     make(chan struct{}),
 		store:          store,
 		exporter:       driver,
 		pipelineConfig: config,
